@@ -413,7 +413,7 @@ def batches(rng, tier):
             ops += ex_ops(s["id"], n, al)
         yield Batch(f"exhaustive-numeric-len{n}", ops, exhaustive=True, note=f"all vectors of length {n} over the option names and numbers at and beyond the limits of int / unsigned, signs, leading zeros, non-decimal spellings")
     # 3b3. white space inside tokens (operator>> skips leading blanks and stops at the next one)
-    spaces = ["\\sx", "x\\s", "a\\sb", "\\s", "\\s5", "5\\s", "\\t5", "5\\t\\s", "\\s-x", "\\n", "red\\s", "\\sred", "\\s\\s7", "5"]
+    spaces = ["\\sx", "x\\s", "a\\sb", "\\s", "\\s5", "5\\s", "\\t5", "5\\t\\s", "\\s-x", "\\n", "red\\s", "\\sred", "\\s\\s7", "5", "ä", "-ä", "--ä"]
     for n in range(1, (3 if thorough else 2) + 1):
         ops = []
         for s in SHAPES:
